@@ -21,7 +21,7 @@ def gen_pattern(r, names, intended=None):
         intended += [n, m]
     kind = r.weighted([("lit", 22), ("alt", 18), ("prefix", 8), ("suffix", 6), ("class", 8), ("negclass", 3),
                        ("digit", 6), ("digits", 4), ("opt", 5), ("group", 6), ("anchored", 5), ("anch_l", 4),
-                       ("anch_r", 4), ("flag", 4), ("case", 6), ("dot", 4), ("alt3", 4), ("altanch", 4), ("esc", 2)])
+                       ("anch_r", 4), ("flag", 4), ("case", 6), ("dot", 4), ("alt3", 4), ("altanch", 4), ("esc", 2), ("clsesc", 8)])
     if kind == "lit":
         return n
     if kind == "alt":
@@ -42,6 +42,11 @@ def gen_pattern(r, names, intended=None):
         return n.rstrip("0123456789") + "\\d"
     if kind == "digits":
         return n.rstrip("0123456789") + r.choice(["\\d+", "\\d*", "[0-9]+"])
+    if kind == "clsesc":
+        # Perl class escapes, lower and upper case (an upper-case escape is the complement of the lower-case one)
+        stem = n.rstrip("0123456789")
+        return r.choice([stem + "\\D", stem + "\\D*", "\\D+", "\\S+", stem + "\\S*", n[:3] + "\\w+", n[:3] + "\\W*" + n[3:],
+                         n.replace(" ", "\\s"), n.replace(" ", "\\S"), stem + "\\d+|" + m, "\\w+\\s?\\d*", stem + "\\W?\\d+", "\\D+\\d"])
     if kind == "opt":
         return n + r.choice(["0?", "?", "x?"])
     if kind == "group":
